@@ -93,7 +93,8 @@ class G:
                 ds = self.defs().get(l, [])
                 if ds and all(d[0] == "stmt" and d[4] and d[3][0] == "use" and d[3][1][0] == "k" and "v" in d[3][1][1] for d in ds):
                     out[(l, ("const",))] = int(s[2][1][1]["v"])
-        res = list(out.items())
+        tc = self.tested()
+        res = [(k, v) for k, v in out.items() if tc.get(k, 0) >= 1]
         cache[bb] = res
         return res
 
@@ -115,11 +116,28 @@ class G:
         cache[bb] = ks
         return ks
 
+    def tested(self):
+        """place key -> number of (non-cleanup) switch blocks that test it.  Knowledge about a place that
+        is tested only once can never contradict a later test, so it is not tracked (keeps the state space small)."""
+        tc = self.__dict__.get("_tested")
+        if tc is None:
+            tc = {}
+            for i, b in enumerate(self.fn["blocks"]):
+                if b.get("c") or b["t"][0] != "switch":
+                    continue
+                pl = self.switch_place(i)
+                if pl is not None:
+                    tc[pl] = tc.get(pl, 0) + 1
+            self.__dict__["_tested"] = tc
+        return tc
+
     def edge_know(self, b, tb, lab, know):
         """Knowledge after taking edge b->tb, or None if the edge contradicts `know`
         (a re-test of a discriminant whose value is already fixed on this path)."""
         pl = self.switch_place(b)
         if pl is None:
+            return know
+        if self.tested().get(pl, 0) < 2 and pl[1] != ("const",):
             return know
         t = self.fn["blocks"][b]["t"]
         if lab == "otherwise":
